@@ -6,6 +6,7 @@ import (
 	"crypto"
 	"crypto/x509"
 	"fmt"
+	"strings"
 	"sync"
 
 	"github.com/notaryproject/notation-core-go/signature"
@@ -72,6 +73,12 @@ func chainFor(kind string) *pki.Chain {
 	return c
 }
 
+// "case-last:X": header "alg":X (what the signature is valid for) followed by a
+// look-alike "ALG" naming the algorithm the leaf key dictates; "case-first:X":
+// the look-alike comes first.
+var jwsCaseDecl = []string{"case-last:PS256", "case-last:PS384", "case-last:PS512", "case-last:ES256", "case-last:ES384", "case-last:ES512", "case-last:RS256", "case-last:HS256",
+	"case-first:PS384", "case-first:ES384", "case-last-Alg:PS384", "case-last-aLg:ES512"}
+
 var jwsDecl = []string{"PS256", "PS384", "PS512", "ES256", "ES384", "ES512", "RS256", "RS384", "RS512", "HS256", "HS384", "HS512", "EdDSA", "ES256K", "none", "empty", "absent", "ps256", "PS256 "}
 var coseDecl = []string{"cose:-37", "cose:-38", "cose:-39", "cose:-7", "cose:-35", "cose:-36", "cose:-257", "cose:-258", "cose:-259", "cose:-8", "cose:-47", "cose:4", "cose:5", "cose:6", "cose:7", "cose:0", "cose:-65535", "tstr:PS256", "tstr:ES256", "absent"}
 
@@ -82,6 +89,9 @@ func build(c Cell) (env []byte, validForDeclared bool, err error) {
 	ch := chainFor(c.Kind)
 	var declared *envcodec.AlgInfo
 	switch {
+	case c.MT == sims.JWS && strings.HasPrefix(c.Decl, "case-"):
+		_, x, _ := strings.Cut(c.Decl, ":")
+		declared = envcodec.AlgByName(x)
 	case c.MT == sims.JWS:
 		declared = envcodec.AlgByName(c.Decl)
 	default:
@@ -107,6 +117,25 @@ func build(c Cell) (env []byte, validForDeclared bool, err error) {
 		prot := sims.ConformantJWS(c.Scheme, "x", sims.SignTime, sims.SignTime.AddDate(1, 0, 0))
 		var out []envcodec.Member
 		for _, m := range prot {
+			if m.Name == envcodec.JAlg && strings.HasPrefix(c.Decl, "case-") {
+				kind, x, _ := strings.Cut(c.Decl, ":")
+				look := "ALG"
+				if i := strings.LastIndex(kind, "-"); i > 4 && kind[i+1:] != "last" && kind[i+1:] != "first" {
+					look = kind[i+1:]
+				}
+				own := "PS256"
+				if row, ok := table[c.Kind]; ok {
+					own = row.alg
+				}
+				real := envcodec.Member{Name: envcodec.JAlg, Raw: envcodec.JStr(x)}
+				fake := envcodec.Member{Name: look, Raw: envcodec.JStr(own)}
+				if strings.HasPrefix(kind, "case-first") {
+					out = append(out, fake, real)
+				} else {
+					out = append(out, real, fake)
+				}
+				continue
+			}
 			if m.Name == envcodec.JAlg {
 				switch c.Decl {
 				case "absent":
@@ -149,6 +178,11 @@ func expectAccept(c Cell) bool {
 		return false
 	}
 	if c.MT == sims.JWS {
+		if strings.HasPrefix(c.Decl, "case-") {
+			// the algorithm in the header named exactly "alg" is the declared one
+			_, x, _ := strings.Cut(c.Decl, ":")
+			return x == row.alg
+		}
 		return c.Decl == row.alg
 	}
 	return c.Decl == fmt.Sprintf("cose:%d", row.cose)
@@ -177,6 +211,13 @@ func judgeCell(r *core.Run, c Cell) {
 	}
 	want := expectAccept(c)
 	got := verr == nil
+	if strings.HasPrefix(c.Decl, "case-") && want && !got {
+		// an approved pairing that additionally carries a look-alike "ALG"
+		// header: the statement does not demand acceptance
+		r.Count("lookalike-on-table-rejected", 1)
+		r.Nontrivial(c.desc())
+		return
+	}
 	if validForDeclared && !want {
 		r.Count("off-diagonal-with-valid-signature", 1)
 	}
@@ -362,7 +403,7 @@ func signCells(r *core.Run) {
 func cells() []Cell {
 	var out []Cell
 	for _, mt := range []string{sims.JWS, sims.COSE} {
-		decls := jwsDecl
+		decls := append(append([]string{}, jwsDecl...), jwsCaseDecl...)
 		if mt == sims.COSE {
 			decls = coseDecl
 		}
